@@ -7,12 +7,15 @@ pub open spec fn step_same_file(f0: LogFile, s0: PrefixFileSet, f1: LogFile, s1:
 }
 pub open spec fn step_rotated(f0: LogFile, s0: PrefixFileSet, f1: LogFile, s1: PrefixFileSet, line: Seq<u8>) -> bool {
     &&& f1.file.content() == line
+    // the file handed over carries its full length and is the newest of the set (deleting "oldest first" by mtime is
+    // then deleting in the order the files were written)
     &&& exists|i: int, pf: PrefixFile| 0 <= i <= s0.files_()@.len() && pf.len == f0.len && pf.path == f0.path
+            && not_after(s0.files_()@, pf.mtime)
             && #[trigger] s1.files_()@.is_suffix_of(s0.files_()@.insert(i, pf))
 }
 // vacuity canary -- must FAIL
 fn canary_logwriter(w: &LogFileWriter, event: LogEvent, file: LogFile, set: PrefixFileSet, p: PathBuf)
-    requires lf_wf(file), wf(set), file_set_small(set, file, event),
+    requires lf_wf(file), wf(set), file_set_small(set, file, event), not_after(set.files_()@, step_now()),
         w.max_keep_age matches Some(d) ==> time_of(step_now()) - dur_of(d) >= time_min(),
 {
     let r = w.region_writer_step(event, Vec::new(), file, set, p);
